@@ -21,8 +21,8 @@ for name in sorted(os.listdir(os.path.join(HERE, "seeded"))):
         sig = (v.get("signatures") or [""])[0][:70].replace("|", "\\|")
         cells.append(f"{k}: **{v['verdict']}**" + (f" `{sig}`" if sig else ""))
         ok = ok or v["verdict"] == "caught"
-    if not cells:
-        cells = [m.get("note", "patch no longer applies")[:200].replace("|", "\\|")]
+    if not cells or (not ok and m.get("note")):
+        cells = [m.get("note", "patch no longer applies")[:420].replace("|", "\\|")]
         ok = True
     n += 1
     caught += ok
